@@ -103,12 +103,16 @@ def embedded_case(ctx, i, rng):
     from spydrnet.flatten import flatten
     probes.install()
     n = gen_ir.generate(rng, profile="flatten")
+    from ..elab import Elab
+    if Elab(n, max_occ=1500).truncated:
+        ctx.count("embedded_discarded_too_large")
+        return
     u = Universe.of(n)
     state = {"n": 0, "bad": None}
 
     def post(label, a, k, r, e):
         state["n"] += 1
-        if state["bad"] is None and state["n"] % 3 == 0:
+        if state["bad"] is None and state["n"] % max(3, u.size() // 100) == 0:
             u.close()
             errs = wf.check_c01(u)
             ctx.count("invariant_evals")
